@@ -32,6 +32,7 @@ class Ghost:
         self.content: dict[str, list] = {}  # key -> bytes the writer stored
         self.shmid: dict[str, str] = {}
         self.noseg: set[str] = set()  # keys whose writer never created the segment
+        self.size: dict[str, object] = {}  # key -> the length the writer asked for (what readers must be told)
 
 
 def learn_reader_ids(mgr, w):
@@ -96,6 +97,7 @@ def build_state(ch, statuses, with_bytes: bool, nreaders=None, stale_files=True,
         if st != DS.created:
             g.content[key] = content
         g.shmid[key] = shmid
+        g.size[key] = size
         real_status = st
         if st == DS.paging_out:
             real_status = DS.in_memory
@@ -236,7 +238,10 @@ def one_step(ch, mgr, w, g, op: str, tag: str, strong_lock: bool, preempt: bool 
                 raise Violation("add-grant-accounting", "free_space did not drop by exactly size")
             if not shmid or any(ds.shmid == shmid for k, ds in mgr.datasets.items() if k != key):
                 raise Violation("add-shmid-clash", shmid)
+            if not (mgr.datasets[key].size == size):
+                raise Violation("reader-told-a-length-the-writer-never-asked-for", f"{key}: the store recorded another length than the one allocated")
             g.shmid[key] = shmid
+            g.size[key] = size
             g.content.pop(key, None)
         ch.note("op", f"add({key})->{err or 'granted'}")
     elif op == "close":
@@ -284,6 +289,8 @@ def one_step(ch, mgr, w, g, op: str, tag: str, strong_lock: bool, preempt: bool 
                 raise Violation("get-granted-not-in-memory", f"status was {st0}")
             if shmid != ds.shmid or not (l == ds.size) or deser_fun != ds.deser_fun:
                 raise Violation("get-wrong-metadata")
+            if not (l == g.size[key]):
+                raise Violation("reader-told-a-length-the-writer-never-asked-for", f"{key}: the length handed to the reader differs from the length of the allocation")
             seg = w.segs.get(shmid)
             if seg is None:
                 raise Violation("get-granted-no-segment")
